@@ -321,9 +321,20 @@ static long eval_const_expr(Token **rest, Token *tok) {
 
   // [https://www.sigbus.info/n1570#6.10.1p4] In #if, all signed and
   // unsigned integer types act as intmax_t and uintmax_t.
-  for (Token *t = expr; t->kind != TK_EOF; t = t->next)
-    if (t->kind == TK_NUM && is_integer(t->ty))
-      t->ty = t->ty->is_unsigned ? ty_ulong : ty_long;
+  //
+  // A constant is unsigned only if it has a `u` suffix (or prefix, for
+  // character constants) or does not fit intmax_t - not because it
+  // would be `unsigned int` in the language proper, like 0x80000000.
+  for (Token *t = expr; t->kind != TK_EOF; t = t->next) {
+    if (t->kind != TK_NUM || !is_integer(t->ty))
+      continue;
+
+    bool is_unsigned = t->ty->is_unsigned && t->ty->size == 8;
+    for (int i = 0; i < t->len && t->loc[i] != '\''; i++)
+      if (t->loc[i] == 'u' || t->loc[i] == 'U')
+        is_unsigned = true;
+    t->ty = is_unsigned ? ty_ulong : ty_long;
+  }
 
   Token *rest2;
   long val = const_expr(&rest2, expr);
